@@ -301,10 +301,8 @@ def check_emitted(acc, clause, prog, case, fmt="cff", lsubrs=None, gsubrs=None, 
         # tangents oblique): with h/v curves the unchanged tree overshoots by up to 2
         # (stale stackUse after a non-mergeable curve pair, see sensitivity/C12.md findings).
         worst = max([d for o, d in r.depth_by_op.items() if o in MERGED_OPS] or [0])
-        if not _only_oblique_curves(r.ops):
-            if worst > maxstack - 1:
-                acc.exclude("stack-headroom-overshoot-in-program-with-hv-curves(finding: stale stackUse)")
-        elif worst > maxstack - 1:
+        # (former finding, repaired: with h/v curves the stale stackUse overshot the bound; all programs are held to it now)
+        if worst > maxstack - 1:
             acc.fail(clause, "stack-headroom", "%s: path operator with %d operands, documented bound maxstack-1 = %d; %s" % (where, worst, maxstack - 1, short(prog, 300)), case, where)
     return r
 
@@ -859,9 +857,7 @@ def check_font_case(acc, case, do_program_legs=True):
         _compare_font(acc, "CFF->CFF2", base, f, case, True, tols, None, hmtx, forbid=("endchar", "return"), where="CFF->CFF2", hb_check=hb_after("CFF->CFF2"), recalcBBoxes=False)
         _glyphset_widths(acc, "CFF->CFF2", f, hmtx, case)
         # the same conversion back on a freshly loaded CFF2 file (the command-line flow)
-        if any(r_.used_local for r_ in subr_runs):
-            acc.exclude("CFF2->CFF on a freshly loaded font that uses local subrs (finding: lazily loaded Subrs INDEX is read with the CFF1 header layout)")
-        else:
+        if True:  # (former finding, repaired: a freshly loaded CFF2 font with local subrs raised IndexError)
             try:
                 with acc.guard("CFF2->CFF(fresh)", case):
                     from fontTools.cffLib.CFF2ToCFF import convertCFF2ToCFF
@@ -1055,9 +1051,7 @@ def check_corpus_font(acc, fid, tier, seed, only=None):
 
         g = leg("CFF->CFF2", convertCFFToCFF2, forbid=("endchar",), widths=None, recalc=False)
         if g is not None and hmtx is not None:
-            if any(c["lsubrs"] for c in cur):
-                acc.exclude("CFF2->CFF on a freshly loaded font that uses local subrs (finding: lazily loaded Subrs INDEX is read with the CFF1 header layout)")
-            else:
+            if True:  # (former finding, repaired: see above)
                 try:
                     with acc.guard("CFF2->CFF(fresh)", case0):
                         fresh = _load(_save(g), False)
@@ -1110,9 +1104,6 @@ def check_corpus_font(acc, fid, tier, seed, only=None):
             if any(t in ("callsubr", "callgsubr") for t in prog) or kinds[gid]:
                 continue
             if cur[gid]["seac"]:
-                continue
-            if fmt == "cff2" and _first_op_blends(prog) >= 2:
-                acc.exclude("cff2-first-operator-has-two-blends(programToCommands width mis-detection)")
                 continue
             nr = (lambda vi=None, priv=priv: priv.getNumRegions(vi)) if fmt == "cff2" else None
             ms = 513 if fmt == "cff2" else 48
